@@ -339,7 +339,13 @@ def rules(rep, prog):
     rep.floor(r_pl, "fit_src_into_dst_size calls", len(calls), 1)
     for c in calls:
         a = [fmt(gs.operand(x)) for x in c.args[:4]]
-        want = ["width(src_view)", "height(src_view)", "width(dst_view)", "height(dst_view)"]
+        # get_crop_box(&self, source view, destination view): the views by position
+        views = [i for i in range(1, g.arg_count + 1) if "ImageView" in (g.local_ty(i) or "")]
+        if len(views) != 2:
+            rep.unk(r_pl, "args", c.at, "the two view parameters of get_crop_box are not identified")
+            continue
+        sv, dv = g.local_name(views[0]), g.local_name(views[1])
+        want = ["width(%s)" % sv, "height(%s)" % sv, "width(%s)" % dv, "height(%s)" % dv]
         if a == want:
             rep.ok(r_pl, "args", c.at, ", ".join(a))
         else:
